@@ -720,6 +720,25 @@ fn run_all(ctx: &Ctx) -> i32 {
             }
         }
     }
+    // assignments written inside function bodies: every parameter shape x body shape x (captures or
+    // not) x way of reaching the call (immediate, stored, returned, named, as a callback)
+    {
+        let params = [("()", "()"), ("x", "(1)"), ("(x, y?)", "(1)"), ("(...r)", "(1)")];
+        let bodies = ["(b = a)", "(b = 1)", "do {\n  b = a\n  return b\n}", "[b = a, b]", "if (b = a) > 0 then b else 0", "(a = 2)", "(inputs = a)"];
+        for pre in ["a = 1\n", ""] {
+            for (p, call) in params {
+                for b in bodies {
+                    let lam = format!("{} => {}", p, b);
+                    texts.push(("extras".into(), format!("{}({}){}", pre, lam, call)));
+                    texts.push(("extras".into(), format!("{}fs = [{}]\nfs[0]{}\nfs[0]{}", pre, lam, call, call)));
+                    texts.push(("extras".into(), format!("{}g = k => {}\ng(1){}", pre, lam, call)));
+                    texts.push(("extras".into(), format!("{}f = {}\nf{}\nf{}", pre, lam, call, call)));
+                    texts.push(("extras".into(), format!("{}[1, 2] via ({})", pre, lam)));
+                    texts.push(("extras".into(), format!("{}r = {{m: {}}}\nr.m{}", pre, lam, call)));
+                }
+            }
+        }
+    }
     // loops whose length comes from the input
     for t in ["1e15!", "9007199254740992!", "170!", "171!", "[1e15]!", "range(1e15)", "range(0, 4294967296)", "round(1, 1e15)", "round(1e300, 400)", "random(1e30)", "chunk([1], 1e30)", "slice([1], 0, 1e30)", "[1, 2][1e30]", "\"ab\"[(-1e30)]", "2 ^ 1e30", "1e308 * 10", "0 / 0", "format(\"{}{}{}\", 1)", "format(\"{\", 1)", "format(\"{0}{9}\", 1)", "split(\"abc\", \"\")", "replace(\"aaa\", \"\", \"b\")", "to_number(\"1e999\")", "to_number(\" 1\")", "convert(1, \"\", \"\")"] {
         texts.push(("extras".into(), t.to_string()));
